@@ -260,6 +260,16 @@ def late_initializer_failure(grow_to=3):
               ["reuse", dict(max_workers=grow_to)], ["settle"], ["probe"], shutdown(True)])
 
 
+def crash_then_reuse(mw=2, pending=3):
+    """A worker takes itself down while several tasks are pending; as soon as one of its futures
+    tells the caller that the pool is broken, the caller asks for the executor again."""
+    ops = [NEW, sub("a", "ok", 1), ["result", "a"], sub("d", "die")]
+    ops += [sub(f"p{i}", "ok", i) for i in range(pending)]
+    ops += [["callback", "p0", "slow", 0.3], ["result", f"p{pending - 1}"],
+            ["reuse", dict(max_workers=mw)], sub("n", "ok", 9), ["result", "n"], shutdown(True)]
+    return P(f"crash-then-reuse-w{mw}-p{pending}", pool("reusable", mw), ops)
+
+
 def forced_nowait_prompt(mw=2, queued=1):
     """shutdown(wait=False, kill_workers=True) while every worker is busy for good and the
     caller keeps its reference: nothing else will ever wake the manager, yet the futures must
